@@ -57,6 +57,13 @@ static bool rankDefHolds(Points const& P, std::vector<unsigned> const& rk){
 	}
 	return true;
 }
+// ranks computed from the definition by memoised recursion (independent of all Shark algorithms)
+static unsigned rankOf(Points const& P, std::vector<unsigned>& memo, std::size_t i){
+	if(memo[i]) return memo[i];
+	unsigned best = 0;
+	for(std::size_t j = 0; j != P.size(); ++j) if(strictDom(P[j], P[i])) best = std::max(best, rankOf(P, memo, j));
+	return memo[i] = best + 1;
+}
 // hypervolume by inclusion of unit cells (integer grid): counts cells z with lo<=z<ref dominated by some p
 static long long cellHv(Points const& P, RealVector const& ref){
 	std::size_t m = ref.size();
@@ -115,7 +122,9 @@ int main(){
 			fastNonDominatedSort(P, rf);
 			if(n > 0) dcNonDominatedSort(P, rd);      // the DC sorter reads points[0] unconditionally
 			nonDominatedSort(P, rn);
-			os << "fast=" << showV(rf) << " dc=" << showV(rd) << " nds=" << showV(rn);
+			std::vector<unsigned> memo(n, 0), rs(n, 0);
+			for(std::size_t i = 0; i != n; ++i) rs[i] = rankOf(P, memo, i);
+			os << "fast=" << showV(rf) << " dc=" << showV(rd) << " nds=" << showV(rn) << " spec=" << showV(rs);
 			if(!rankDefHolds(P, rf)) orc += " !oracle rank-def fast";
 			if(!rankDefHolds(P, rd)) orc += " !oracle rank-def dc";
 			if(!rankDefHolds(P, rn)) orc += " !oracle rank-def nds";
@@ -162,9 +171,11 @@ int main(){
 				if(kind == "small" ? full[i-1].key > full[i].key : full[i-1].key < full[i].key) orc += " !oracle contribution-order";
 			// independent definition: hv(S) - hv(S \ i)
 			long long hvAll = cellHv(P, ref);
+			std::vector<long long> specv(n, 0);
 			for(std::size_t i = 0; i != n; ++i){
 				Points Q = P; Q.erase(Q.begin() + i);
 				long long want = hvAll - cellHv(Q, ref);
+				specv[i] = want;
 				if(seen[i] && std::fabs(val[i] - (double)want) > 1e-6 * (1 + std::fabs((double)want))){ orc += " !oracle contribution-def"; break; }
 			}
 			// (2) the requested k: values in reported order; each must be the contribution of its index
@@ -181,7 +192,7 @@ int main(){
 			for(std::size_t i = 0; i != n; ++i) os << (i ? "," : "") << byIdx[i];
 			os << "] sel=[";
 			for(std::size_t i = 0; i != selv.size(); ++i) os << (i ? "," : "") << selv[i];
-			os << "]";
+			os << "] spec=" << showV(specv);
 		}else if(op == "ssp" && parseInts(t, 1, a) && a.size() >= 4 && a.size() == 4 + (std::size_t)(2*a[1])){
 			std::size_t k = a[0], n = a[1];
 			RealVector ref = vec(a, 2, 2);
@@ -195,15 +206,38 @@ int main(){
 			os << "cnt=" << cnt << " hv=" << got;
 			if(cnt != k) orc += " !oracle subset-count";
 			// brute force over all k-subsets (n is small)
-			if(n <= 16){
+			if(n <= 12){
 				long long best = 0;
 				for(unsigned long mask = 0; mask < (1ul << n); ++mask){
 					if((std::size_t)__builtin_popcountl(mask) != k) continue;
 					Points R; for(std::size_t i = 0; i != n; ++i) if(mask >> i & 1) R.push_back(P[i]);
 					best = std::max(best, cellHv(R, ref));
 				}
+				os << " best=" << best;
 				if(got < best) orc += " !oracle subset-not-optimal";
+			}else{
+				os << " best=-";
+				// larger sets: the optimum over the k-subsets of the distinct non-dominated points by an own O(n^2 k) recursion
+				Points F;
+				for(std::size_t i = 0; i != n; ++i){
+					bool keep = true;
+					for(std::size_t j = 0; j != n && keep; ++j) if(strictDom(P[j], P[i]) || (j < i && weakDom(P[j], P[i]) && weakDom(P[i], P[j]))) keep = false;
+					if(keep) F.push_back(P[i]);
+				}
+				std::sort(F.begin(), F.end(), [](RealVector const& a, RealVector const& b){ return a(0) < b(0); });
+				std::size_t f = F.size();
+				// best[j][i]: largest area left of x_i... use: A[c][i] = best hv of c points the last (right-most) of which is i
+				std::vector<std::vector<double> > A(k + 1, std::vector<double>(f, -1));
+				for(std::size_t i = 0; i != f; ++i) A[1][i] = (ref(0) - F[i](0)) * (ref(1) - F[i](1));
+				for(std::size_t c = 2; c <= k; ++c) for(std::size_t i = 0; i != f; ++i) for(std::size_t j = 0; j != i; ++j)
+					if(A[c-1][j] >= 0) A[c][i] = std::max(A[c][i], A[c-1][j] + (ref(0) - F[i](0)) * (F[j](1) - F[i](1)));
+				double best = 0;
+				for(std::size_t c = 1; c <= k; ++c) for(std::size_t i = 0; i != f; ++i) best = std::max(best, A[c][i]);
+				if((double)got < best) orc += " !oracle subset-not-optimal";
 			}
+			os << " sel=[";
+			{ bool first = true; for(std::size_t i = 0; i != n; ++i) if(selected[i]){ os << (first ? "" : ",") << i; first = false; } }
+			os << "]";
 		}else{ std::cout << "bad-op\n"; continue; }
 		}catch(std::exception const& e){
 			os.str(""); os << "exception";
